@@ -61,6 +61,14 @@ class C05(Prop):
     def _L(self, rng):
         return rng.choice([NEG_INF, rng.uniform(-5, 0), rng.uniform(-50, 5), rng.uniform(-1e4, 0), -700.0 * rng.random()])
 
+    def _Lpair(self, rng):
+        """log-likelihoods of the current and the proposed state; in a third of the cases they are close, so that the prior and
+        proposal ratios decide the acceptance in either direction"""
+        L = self._L(rng)
+        if rng.random() < 0.35 and L != NEG_INF:
+            return L, L + rng.choice([0.0, rng.gauss(0, 0.3), rng.gauss(0, 2.0)])
+        return L, self._L(rng)
+
     def gen(self, rng, tier):
         n = 400 if tier == 'quick' else 6000
         for i in range(n):
@@ -68,22 +76,25 @@ class C05(Prop):
             prior = rng.choice(['uniform_prior', 'flat_prior'])
             if k < 0.4:
                 dc = rng.random() < 0.3
+                L, Lp = self._Lpair(rng)
                 yield {'kind': 'shift', 'prior': prior, 'dc': dc, 'w': self._widths(rng), 'xi': self._state(rng, dc),
-                       'x': self._state(rng, dc), 'L': self._L(rng), 'Lp': self._L(rng)}
+                       'x': self._state(rng, dc), 'L': L, 'Lp': Lp}
             elif k < 0.55:
                 ne = rng.randint(2, 3)
                 dcs = [rng.random() < 0.3 for _ in range(ne)]
+                L, Lp = self._Lpair(rng)
                 yield {'kind': 'multi', 'prior': prior, 'dc': dcs, 'w': [self._widths(rng) for _ in range(ne)],
                        'xi': [self._state(rng, d, 0.05) for d in dcs], 'x': [self._state(rng, d, 0.05) for d in dcs],
-                       'L': self._L(rng), 'Lp': self._L(rng)}
+                       'L': L, 'Lp': Lp}
             elif k < 0.8:
                 sg, sd = 10 ** rng.uniform(-1.5, 0), 10 ** rng.uniform(-1.5, 0)
                 mt = self._state(rng, False, 0.1)
                 dcs = dict(mt)
                 dcs['gamma'] = 0.0
                 dcs['delta'] = 0.0
+                L, Lp = self._Lpair(rng)
                 yield {'kind': 'jump', 'prior': prior, 'sg': sg, 'sd': sd, 'mt': mt, 'dcs': dcs, 'p': rng.uniform(0.02, 0.98),
-                       'L': self._L(rng), 'Lp': self._L(rng)}
+                       'L': L, 'Lp': Lp}
             else:
                 sub = rng.choice(['shift', 'shift', 'jump-up', 'jump-down'])
                 dc = rng.random() < 0.3 and sub == 'shift'
